@@ -225,7 +225,58 @@ fn run_late_header_once(spec: &Spec) -> Option<Vec<(String, String)>> {
     })
 }
 
+/// Accumulation before the stop: A is in flight (at its point), then 2 500 short-lived connections come and go,
+/// then shutdown is requested: listen() still waits for A, A still completes.
+fn run_crowd_before_stop_once(spec: &Spec) -> Option<Vec<(String, String)>> {
+    run_local(async {
+        let mut v: Vec<(String, String)> = vec![];
+        let mut adapters = NetAdapters::new();
+        let gate = Arc::new(Semaphore::new(0));
+        adapters.gate = Some(gate.clone());
+        let cfg = ListenerCfg { timeout: Duration::from_secs(30), ..Default::default() };
+        let running = start_listener(&cfg, adapters).await;
+        let Some(mut a) = drive_to(running.addr, spec.a, &gate, "127.0.0.2", false).await else {
+            running.stop.cancel();
+            return None;
+        };
+        for i in 0..2_500usize {
+            match McClient::connect(running.addr, Some("127.0.0.3".parse().unwrap())).await {
+                Ok(mut c) => {
+                    if i % 50 == 0 {
+                        let _ = c.status_exchange(Duration::from_millis(500)).await;
+                    }
+                }
+                Err(_) => break,
+            }
+        }
+        tokio::time::sleep(Duration::from_millis(50)).await;
+        running.stop.cancel();
+        tokio::time::sleep(Duration::from_millis(150)).await;
+        let mut done = running.done;
+        if done.is_finished() {
+            v.push(("listener-returned-with-connections-in-flight".into(), format!("listen() returned right after the stop although A ({}) is unfinished (2 500 short-lived connections had come and gone since A connected)", point_name(false, spec.a))));
+        }
+        gate.add_permits(2);
+        let p = LoginParams { wait: Duration::from_secs(2), ..Default::default() };
+        let from = a.out.stage;
+        a.client.login(&p, from, Stage::Transferred, &mut a.out).await;
+        if a.out.stage != Stage::Transferred || kinds(&a.out) != BASELINE {
+            v.push((format!("in-flight-connection-not-completed:{}", point_name(false, a.point)), format!("A (at '{}' when the stop was requested, 2 500 connections after it connected) received {:?}, stage {:?}, error {:?}", point_name(false, a.point), kinds(&a.out), a.out.stage, a.out.error)));
+        }
+        let _ = a.client.wait_closed(Duration::from_secs(2)).await;
+        match tokio::time::timeout(Duration::from_secs(2), &mut done).await {
+            Ok(Ok(Ok(()))) => {}
+            Ok(other) => v.push(("listener-failed".into(), format!("{other:?}"))),
+            Err(_) => v.push(("listener-does-not-return-after-drain".into(), "listen() had not returned 2 s after the last in-flight connection finished".into())),
+        }
+        Some(v)
+    })
+}
+
 fn run_schedule_once(spec: &Spec) -> Option<Vec<(String, String)>> {
+    if spec.fault.as_deref() == Some("crowd-before-stop") {
+        return run_crowd_before_stop_once(spec);
+    }
     if spec.fault.as_deref() == Some("late-header-then-stalls") {
         return run_late_header_once(spec);
     }
@@ -491,6 +542,9 @@ pub fn run(cli: Cli) -> ! {
     }
     for a in [0usize, 1] {
         specs.push(Spec { a, b: usize::MAX, new_conn_at: 0, a_stalls: true, via_start: false, proxy: true, drain_ms: 0, fault: Some("late-header-then-stalls".into()), no_deadline: false });
+    }
+    for a in [1usize, 3, 5] {
+        specs.push(Spec { a, b: usize::MAX, new_conn_at: 0, a_stalls: false, via_start: false, proxy: false, drain_ms: 0, fault: Some("crowd-before-stop".into()), no_deadline: false });
     }
     // a drain that lasts longer than any built-in default (10 s): the configured timeout (30 s) is what bounds it
     specs.push(Spec { a: 5, b: usize::MAX, new_conn_at: 1, a_stalls: false, via_start: false, proxy: false, drain_ms: 11_500, fault: None, no_deadline: false });
